@@ -396,11 +396,14 @@ def scalarShape : Expr → Bool
 def mkMul (a b : Expr) : Expr :=
   if a = one ∧ scalarShape b = true then b else if b = one ∧ scalarShape a = true then a else .mul a b
 
-/-- `1*x = x`, `x*1 = x` everywhere -/
+/-- `x - 0 = x` -/
+def mkSub (a b : Expr) : Expr := if b = zero ∧ scalarShape a = true then a else .sub a b
+
+/-- `1*x = x`, `x*1 = x`, `x - 0 = x` everywhere -/
 def simp : Expr → Expr
   | .neg e => .neg (simp e)
   | .add a b => .add (simp a) (simp b)
-  | .sub a b => .sub (simp a) (simp b)
+  | .sub a b => mkSub (simp a) (simp b)
   | .mul a b => mkMul (simp a) (simp b)
   | .div a b => .div (simp a) (simp b)
   | .pow a b => .pow (simp a) (simp b)
@@ -445,6 +448,64 @@ def nestOK (tbl : List Model) (sigs : List Sig) (a b : Name) (args : List Expr) 
       match normalForm tbl sigs a args, normalForm tbl sigs b (mb.paramNames.map .param) with
       | some ta, some tb => ta == tb
       | _, _ => false
+
+/-- follow the `if`s of a trace along a list of outcomes (`true` = the `then` branch) -/
+def selectBranch : List Bool → Tr → Option Tr
+  | [], t => some t
+  | b :: bs, .ite _ x y => selectBranch bs (if b then x else y)
+  | _ :: _, .leaf _ => none
+
+/-- the comparisons decided along the path, with the outcome each must have -/
+def pathConds : List Bool → Tr → List (Cond × Bool)
+  | b :: bs, .ite c x y => (c, b) :: pathConds bs (if b then x else y)
+  | _, _ => []
+
+/-- model `a` at `argsA`, restricted to the branch `path` of its `if`s, has the normal form of model `b` at `argsB` -/
+def nestOKAt (tbl : List Model) (sigs : List Sig) (a : Name) (argsA : List Expr) (path : List Bool) (b : Name)
+    (argsB : List Expr) : Bool :=
+  match normalForm tbl sigs a argsA, normalForm tbl sigs b argsB with
+  | some ta, some tb => selectBranch path ta == some tb
+  | _, _ => false
+
+/-! ## argument wiring -/
+
+/-- the bytes of a name, most significant first -/
+def nameBytes (n : Name) : List Nat :=
+  let rec go (fuel : Nat) (n : Nat) (acc : List Nat) : List Nat :=
+    match fuel with
+    | 0 => acc
+    | f + 1 => if n = 0 then acc else go f (n / 256) (n % 256 :: acc)
+  go 64 n []
+
+def isDigit (b : Nat) : Bool := 48 ≤ b && b ≤ 57
+
+/-- `gamma12b` -> (`gamma`, `12`): the alphabetic family and the population index that follows it -/
+def familyIndex (n : Name) : List Nat × List Nat :=
+  let bs := nameBytes n
+  let pre := bs.takeWhile (fun b => !isDigit b)
+  (pre, (bs.dropWhile (fun b => !isDigit b)).takeWhile isDigit)
+
+/-- keyword `k` receives the bare parameter `p`: when both belong to the same family and carry a population index of the
+    same length, the indices agree (`gamma2=gamma2`, `nu1=nu1a`, `m12=m12b`; not judged: `m12=m1`, `nu2=nuA`, `gamma=gamma1`) -/
+def wiredOK (k : Name) : Expr → Bool
+  | .param p =>
+      let (fk, ik) := familyIndex k
+      let (fp, ip) := familyIndex p
+      !(fk == fp && ik != [] && ik.length == ip.length) || ik == ip
+  | _ => true
+
+def callWired (ints : List Name) (c : Call) : Bool :=
+  !(ints.contains c.fn) || c.args.all (fun a => wiredOK a.1 a.2)
+
+/-- every integrator call of every branch passes each population-indexed parameter to the keyword of the same index -/
+def wiringOK (ints : List Name) : Tr → Bool
+  | .leaf r => r.steps.all (callWired ints)
+  | .ite _ a b => wiringOK ints a && wiringOK ints b
+
+/-- number of straight-line branches of a trace -/
+def branchCount : Tr → Nat
+  | .leaf _ => 1
+  | .ite _ a b => branchCount a + branchCount b
 
 /-! ## interpretations -/
 
